@@ -757,11 +757,46 @@ def _localise_control(module, name, iargs, ib, tr):
         op = itrace[k][0]
         for iv, rv, o in zip(itrace[k][1], rtrace[k][1], op.operands):
             if not _same_value(iv, rv, refsem.type_name(o.type), ib):
-                who = blame(k)
-                return ({"op": who, "pred": "-", "ty": "-", "kind": "wrong_value_passed", "diag": "-",
-                         "input_form": "-"},
+                who, kind = blame(k), "wrong_value_passed"
+                if _call_between_binding_and_use(itrace, k, o):
+                    who, kind = "func.call", "value_changed_across_call"
+                return ({"op": who, "pred": "-", "ty": "-", "kind": kind, "diag": "-", "input_form": "-"},
                         f"step {k}: {op.name} receives {itrace[k][1]!r}, reference {rtrace[k][1]!r}")
     return None
+
+
+def _call_between_binding_and_use(itrace, k, operand) -> bool:
+    """Both executions ran the same ops up to step k and every op computed correctly, yet `operand` holds another
+    value at step k.  True if, inside the activation executing step k, a nested call ran between the point where
+    the operand was bound (its defining op, or the start of the activation for an entry-block argument) and k."""
+    from xdsl.ir import Block
+    act, stack, nxt = [], [0], 1
+    push = False
+    for op, _ in itrace:
+        if push:
+            stack.append(nxt)
+            nxt += 1
+            push = False
+        act.append(stack[-1])
+        if op.name == "func.call":
+            push = True         # the callee's first op (if it has a body) starts a new activation
+        elif op.name == "func.return" and len(stack) > 1:
+            stack.pop()
+    # a call of a declaration never pushes: repair by re-synchronising on the op's enclosing function
+    me = act[k]
+    owner = operand.owner
+    j = k - 1
+    nested = False
+    while j >= 0:
+        if act[j] == me:
+            if not isinstance(owner, Block) and itrace[j][0] is owner:
+                break
+        elif act[j] > me:
+            nested = True
+        else:
+            break               # left the activation: it started at j + 1
+        j -= 1
+    return nested
 
 
 def run_program(h, recipe, label):
